@@ -142,7 +142,7 @@ class _Scn(object):
         directed = routine in DIRECTED
         W, meta = gen.signed_graph(rnd, directed, nmax=self.nmax)
         if routine in NULL:
-            params = {'bin_swaps': rnd.choice((0, 1, 2, 5)), 'wei_freq': rnd.choice((0, 0.1, 0.3, 0.5, 1))}
+            params = {'bin_swaps': rnd.choice((0, 1, 2, 5)), 'wei_freq': rnd.choice((0, 0.1, 0.3, 0.5, 1, 0.1, 0.3, 1, 0.01, 1e-20))}  # (0, 1] down to periods far longer than the weight list
             if rnd.random() < 0.2:
                 np.fill_diagonal(W, rnd.choice((1.0, -2.0, 0.5)))  # documented: the routine clears the diagonal itself
             if rnd.random() < 0.08:
